@@ -10,6 +10,7 @@ import (
 	"time"
 
 	"github.com/skx/evalfilter/v2/code"
+	"github.com/skx/evalfilter/v2/object"
 	"github.com/skx/evalfilter/v2/vm"
 
 	"verif/internal/eng"
@@ -256,6 +257,7 @@ func c09(c *ev.Ctx) {
 	c09WorkAfterCancel(c)
 	c09StraightLine(c)
 	c09ObjectsWithContext(c)
+	c09AfterPanic(c)
 	// finite scripts under a live context are unaffected
 	// (every kind of live context: no deadline at all, deadlines from a minute to the end of
 	// what a time.Time or a Duration can hold, a child of a live parent, a context carrying values)
@@ -638,5 +640,75 @@ func c09ObjectsWithContext(c *ev.Ctx) {
 			}
 		}
 		cancel()
+	}
+}
+
+// c09AfterPanic: the context given before Prepare keeps stopping scripts after runs that
+// ended in a run-time error or a Go-level panic (a remainder by zero, panic(), a host function
+// that panics): a spinning run that follows is stopped when the context is cancelled, and
+// once the context is over nothing executes.
+func c09AfterPanic(c *ev.Ctx) {
+	script := `if (Mode == 1) { return 1 % Zero; } if (Mode == 2) { panic("p"); } if (Mode == 3) { return boom(1); } if (Mode == 4) { return [1, 2][Zero - 1 + "x"]; } if (Mode == 9) { while (true) { x = 1; } } function spin() { for (true) { y = 2; } } if (Mode == 8) { spin(); } return 7;`
+	for fault := 1; fault <= 4; fault++ {
+		for _, spinMode := range []int{9, 8} {
+			for _, run := range []bool{false, true} {
+				id := fmt.Sprintf("after-panic/%d/%d/%v", fault, spinMode, run)
+				if !c.Want(id) {
+					continue
+				}
+				ctx, cancel := context.WithCancel(context.Background())
+				evr, err := eng.New(script, eng.Options{Ctx: ctx, NoOptimize: (fault+spinMode)%2 == 0, Budget: 2000 + c09Bound + 10,
+					Funcs: map[string]func(args []object.Object) object.Object{"boom": func(args []object.Object) object.Object { panic("host function panics") }}})
+				if err != nil {
+					cancel()
+					c.Violation(id, "prepare", map[string]interface{}{"summary": "Prepare failed: " + err.Error(), "script": script})
+					continue
+				}
+				call := func(mode int) (error, bool) {
+					obj := map[string]interface{}{"Mode": mode, "Zero": 0}
+					if run {
+						_, e, _, _ := evr.RunBool(obj)
+						return e, e != nil && strings.Contains(e.Error(), eng.ErrBudget.Error())
+					}
+					o := evr.Exec(obj)
+					return o.Err, o.Budget
+				}
+				c.Case(id, true)
+				if e, _ := call(0); e != nil {
+					c.Violation(id, "finite run fails", map[string]interface{}{"summary": fmt.Sprintf("a finite run under a live context fails: %v", e), "script": script})
+					cancel()
+					continue
+				}
+				if e, _ := call(fault); e == nil {
+					c.Violation(id, "faulting run gives no error", map[string]interface{}{"summary": fmt.Sprintf("the run with Mode=%d gives no error", fault), "script": script})
+					cancel()
+					continue
+				}
+				cancelled := false
+				var stepsAfter int64
+				evr.OnStep = func(m *vm.VM, ip int, op code.Opcode) error {
+					if cancelled {
+						stepsAfter++
+					} else if evr.Steps() > 1000 {
+						cancelled = true
+						cancel()
+					}
+					return nil
+				}
+				e, budget := call(spinMode)
+				evr.OnStep = nil
+				if !cancelled || budget || e == nil || stepsAfter > c09Bound {
+					c.Violation(id, "not stopped after an earlier run panicked", map[string]interface{}{"summary": fmt.Sprintf("after a run that ended in a fault (Mode=%d) a spinning run (Mode=%d, %s): context cancelled=%v at instruction 1000, %d further instructions, err=%v - the context given before Prepare no longer stops the script", fault, spinMode, apiName(run), cancelled, stepsAfter, e), "script": script})
+					cancel()
+					continue
+				}
+				// the context is over now: after one more fault nothing may execute either
+				call(fault)
+				if e, _ := call(0); e == nil || evr.Steps() != 0 {
+					c.Violation(id, "an expired context executes after a fault", map[string]interface{}{"summary": fmt.Sprintf("context over, a faulting call, then a finite call: err=%v after %d instructions (an error and no execution expected)", e, evr.Steps()), "script": script})
+				}
+				cancel()
+			}
+		}
 	}
 }
